@@ -36,6 +36,13 @@ var c01Sinks = []c01Sink{
 	{"attr-interp", func(pre, post string) string { return `<p title="` + pre + `{{ x }}` + post + `">t</p>` }, true},
 	{"attr-bound", func(pre, post string) string { return `<p :title="x">t</p>` }, true},
 	{"attr-bound-interp", func(pre, post string) string { return `<p :title="` + pre + `{{ x }}` + post + `">t</p>` }, true},
+	// attribute NAMES other than title (the serialiser treats every name alike): data-*, href, value, alt; values that are JSON documents
+	{"attr-data-interp", func(pre, post string) string { return `<p data-x="` + pre + `{{ x }}` + post + `">t</p>` }, true},
+	{"attr-data-bound", func(pre, post string) string { return `<p :data-props="x" :data-i="kk">t</p>` }, true},
+	{"attr-data-json-pipe", func(pre, post string) string { return `<p data-rows='{{ rows | json }}' data-x="{{ x | json }}">t</p>` }, true},
+	{"attr-href-value-bound", func(pre, post string) string {
+		return `<p><a :href="x" alt="` + pre + `{{ x }}` + post + `">l</a><input :value="x" :placeholder="x"></p>`
+	}, true},
 	{"class-bound", func(pre, post string) string { return `<p class="c" :class="x">t</p>` }, true},
 	// a bound value MERGED into a static attribute that itself contains a mustache (class and style are merged, not replaced)
 	{"class-interp-bound", func(pre, post string) string { return `<p class="c {{ kk }}" :class="x">t</p>` }, true},
@@ -179,6 +186,8 @@ var c01Nasty = []string{
 	"<b>x</b>", `"><script>alert(1)</script>`, `"><script>x</script>&amp;`, "&", "&amp;", "a & b;", "&lt;b&gt;", "</p><i>", "'", `"`, `" onmouseover="x`, "{{secret}}", "{{ secret }}", "}}{{secret}}{{",
 	"&#", "&#60;b&#62;", "<!--", "-->", "<![CDATA[", "a;b&c<d", "{{", "}}", "{{ x }}", `v-if="secret"`, "<template include=comp.vuego>", "&lt", "&quot;><b>", "x' y=\"z",
 	// values that close the element the sink sits in
+	// values that are themselves JSON documents holding quotes (what ends up in data-* attributes)
+	`["' onmouseover=alert(1) x='"]`, `{"name":"' onmouseover=alert(1) x='"}`, `{"a":"\" onmouseover=\"x"}`, `[1,"<b>","'"]`, "' onmouseover=alert(1) x='",
 	"</noscript><b>x</b>", "</iframe><a href=x>y</a>", "</xmp><i>", "</textarea><i>", "</title><i>", "\"></noscript><img src=x>",
 }
 
@@ -188,7 +197,7 @@ func c01Eval(sink c01Sink, nb c01Nb, con c01Construct, val string) *Case {
 	filesW, dataW := con.wrap(markup, "word")
 	got := renderPage(files, "page.vuego", data)
 	ref := renderPage(filesW, "page.vuego", dataW)
-	if con.name != "layout-var" {
+	if con.name != "layout-var" && sink.name != "attr-data-json-pipe" { // (the pipe model has no json filter)
 		pendingPages = append(pendingPages, pageCase("inert:"+sink.name+"/"+con.name, files, nil, "page.vuego", data, "construct:"+con.name))
 	}
 	c := &Case{Name: fmt.Sprintf("%s/%s/%s value %q", sink.name, nb.name, con.name, val),
